@@ -254,38 +254,48 @@ def r4(ctx):
                         'independent')
     # qtp definition: linear power / cross-section area of the cell
     dp = repo.func('region_rodded', 'RoddedRegion._calc_duct_power')
-    # the value returned on the heated path (through a local or directly)
+    # the value returned on the heated path, expanded flow-sensitively at the
+    # return (through locals or directly): p_duct[lo:hi] / wall cell area
     rets_ = [r_ for r_ in walk_no_nested(dp.node)
              if isinstance(r_, ast.Return) and r_.value is not None
              and 'np.zeros' not in src(r_.value)]
     pd = None
     if len(rets_) == 1:
-        pd = U.expand_locals(dp.node, rets_[0].value,
-                             before=rets_[0].lineno, depth=2,
-                             keep=('start', 'end', 'p_duct', 'duct_id'))
-    # block d of the concatenated duct power vector: [d N, (d + 1) N)
+        pd = U.value_at(dp.node, rets_[0].value, rets_[0].lineno)
+    # block d of the concatenated duct power vector: [d N, (d + 1) N); the
+    # bounds are those of the slice actually read, whatever the locals that
+    # carry them are called and however they are spelled (d N + N, ...)
     N_ = "self.subchannel.n_sc['duct']['total']"
     did = dp.params[-1]
-    for nm_, want in (('start', Rat.sym('d') * Rat.sym('N')),
-                      ('end', (Rat.sym('d') + Rat.const(1)) * Rat.sym('N'))):
-        dv = U.single_def(dp.node, nm_)
+    pvec = dp.params[-2] if len(dp.params) >= 2 else None
+    sl = None
+    if isinstance(pd, ast.BinOp) and isinstance(pd.op, ast.Div) \
+            and isinstance(pd.left, ast.Subscript) \
+            and isinstance(pd.left.value, ast.Name) \
+            and pd.left.value.id == pvec \
+            and isinstance(pd.left.slice, ast.Slice) \
+            and pd.left.slice.step is None:
+        sl = pd.left.slice
+    for nm_, bnd, want in (
+            ('start', sl.lower if sl is not None else None,
+             Rat.sym('d') * Rat.sym('N')),
+            ('end', sl.upper if sl is not None else None,
+             (Rat.sym('d') + Rat.const(1)) * Rat.sym('N'))):
         okb = False
-        if dv is not None:
+        if bnd is not None:
             try:
-                okb = from_ast(U.expand_locals(dp.node, dv, keep=(did,)),
-                               {did: 'd', N_: 'N'}).equals(want)
+                okb = from_ast(bnd, {did: 'd', N_: 'N'}).equals(want)
             except NotPolynomial:
                 okb = False
-        ctx.require(okb, 'C11.R4', dp, dv if dv is not None else dp.node,
+        ctx.require(okb, 'C11.R4', dp, rets_[0] if rets_ else dp.node,
                     'duct %s reads block %s of the duct power vector (inner '
                     'duct first): %s = %s x cells per duct' % (
                         did, did, nm_, 'duct id' if nm_ == 'start'
                         else '(duct id + 1)'),
                     key='%s | power block %s' % (dp.full, nm_))
-    ctx.require(pd is not None and ' '.join(src(pd).split()) ==
-                "p_duct[start:end] / self.duct_params['q_area'][duct_id, "
-                "self._duct_idx]", 'C11.R4', dp,
-                rets_[0] if rets_ else dp.node,
+    ctx.require(sl is not None and ' '.join(src(pd.right).split()) ==
+                "self.duct_params['q_area'][%s, self._duct_idx]" % did,
+                'C11.R4', dp, rets_[0] if rets_ else dp.node,
                 'volumetric heating = linear power / wall cell area',
                 key=dp.full + ' | qtp')
     # ---- unrodded closed form (q = 0)
